@@ -1172,6 +1172,7 @@ OPNMIDI_EXPORT int opn2_playFormat(OPN2_MIDIPlayer *device, int sampleCount,
     //ssize_t n_periodCountPhys = n_periodCountStereo * 2;
     int left = sampleCount;
     bool hasSkipped = setup.tick_skip_samples_delay > 0;
+    int antiFreezeCounter = 10000; // Limit of event rows handled in a row without giving any audio
 
     while(left > 0)
     {
@@ -1236,7 +1237,19 @@ OPNMIDI_EXPORT int opn2_playFormat(OPN2_MIDIPlayer *device, int sampleCount,
             hasSkipped = setup.tick_skip_samples_delay > 0;
         }
         else
+        {
             setup.delay = player->Tick(eat_delay, setup.mindelay);
+
+            if(n_periodCountStereo > 0)
+                antiFreezeCounter = 10000;
+            else if(--antiFreezeCounter <= 0)
+            {
+                /* An absurd tempo leaves no time between the events of a looping song:
+                 * give the audio one second rather than handle events for ever */
+                setup.delay = 1.0;
+                antiFreezeCounter = 10000;
+            }
+        }
     }
 
     return static_cast<int>(gotten_len);
